@@ -1,4 +1,6 @@
 /* S-list: operation sequences on htp_list_array_* */
+static void do_list(char **f, int nf);
+static int drv_list(char **f, int nf) { if (strcmp(f[0], "list") != 0) return 0; do_list(f, nf); return 1; }
 static void do_list(char **f, int nf) {
     if (nf < 3) { printf("?args"); return; }
     size_t cap = (size_t) atol(f[1]);
